@@ -61,7 +61,7 @@ RULE = ('cases = (main flow over block/unblock(false)/unblock(true)/shutdown wit
         '3 numbers); non-trivial = at least one arrival; distinct = distinct case tuples')
 TRUSTED_BASE = ['__sync_fetch_and_add/sub/and are atomic with respect to signal handlers (one atomic step each)',
                 'signal handlers nest LIFO on the delivering thread; a synchronous call of processSignal at a yield point is what an '
-                'interrupting handler does there (verif hook 2074af4: POTASSCO_VERIF_YIELD between the atomic steps)',
+                'interrupting handler does there (verif hook d9db889: POTASSCO_VERIF_YIELD between the atomic steps)',
                 'OS-level cases: raise() delivers synchronously on the calling thread; the harness clears the signal mask before every '
                 'raise, so the OS calls the handler iff the disposition is the handler and discards the signal iff it is SIG_IGN '
                 '(the no-mask semantics of Windows / System V signal() that sigHandler is written for; under the BSD semantics of '
@@ -1147,7 +1147,7 @@ LEVEL_NOTE = ('Trusted: Coq kernel/vm_compute, extraction+driver (sample cross-c
               'atomicity of the __sync builtins, LIFO nesting of handlers on one thread and the no-mask signal semantics (mask cleared before '
               'each raise) are modelling assumptions; sigHandler has no yield point around its two signal() calls, so interruptions there are '
               'covered by the theorems only; the Windows alarm thread is outside the model. The defect found (read-then-clear of pending_ in '
-              'unblockSignals loses a signal) was repaired (55f6ce1); the pre-repair model is kept and refuted by c18_lost_refuted_before_repair.')
+              'unblockSignals loses a signal) was repaired (aeb5013); the pre-repair model is kept and refuted by c18_lost_refuted_before_repair.')
 TECHNIQUE = 'Coq invariant proofs over a small-step interleaving model + differential correspondence of step traces with the implementation'
 DESIGN_REF = 'DESIGN.md section 5, C18'
 
